@@ -217,6 +217,16 @@ impl<'a> RoundTrip<'a> {
 					let mut bl: Vec<String> = d.blocks.iter().map(|b| format!("{},{},{},{},{},{},{}:{}", b.z, b.bx, b.by, b.x0, b.y0, b.x1, b.y1, rle(&b.occ))).collect(); bl.sort();
 					self.lines.borrow_mut().push(format!("vtblocks {} {} => {}", lv.join(";"), if tl.is_empty() { "-".into() } else { tl.join(";") }, bl.join(";")));
 				}
+				// correspondence with the Coq block writer (append order, de-duplication below 1000 bytes): the
+				// tile index entries of every small block, from the payloads in slot order
+				for b in d.blocks.iter().filter(|b| b.occ.len() <= 400).take(40) {
+					let w = (b.x1 - b.x0) as u32 + 1;
+					let mut classes: Vec<&Vec<u8>> = vec![];
+					let slots: Vec<String> = (0..b.occ.len() as u32).map(|i| { let c = (b.z, b.bx * 256 + b.x0 as u32 + i % w, b.by * 256 + b.y0 as u32 + i / w);
+						match stored.get(&c) { None => "-".to_string(), Some(p) if p.len() < 4 => format!("h{}", if p.is_empty() { "-".into() } else { hex(p) }),
+							Some(p) => { let k = classes.iter().position(|q| *q == p).unwrap_or_else(|| { classes.push(p); classes.len() - 1 }); format!("{}:{}", p.len(), k) } } }).collect();
+					self.lines.borrow_mut().push(format!("vtindex {} => {}", slots.join(","), b.entries.iter().map(|(o, l)| format!("{o}+{l}")).collect::<Vec<_>>().join(",")));
+				}
 				(d.tiles, if d.format == fb && d.compression == cb { ext.clone() } else { format!("format byte {:#x} compression byte {}", d.format, d.compression) }) }
 			"pmtiles" => { let d = indep::dec_pmtiles(&std::fs::read(path)?)?;
 				let tt = match format { TileFormat::PBF => 1u8, TileFormat::PNG => 2, TileFormat::JPG => 3, TileFormat::WEBP => 4, TileFormat::AVIF => 5, _ => 0 };
